@@ -19,7 +19,7 @@ Rej(r, what) == PrintT("REJECT " \o ToJson(<<"C13", r.id, what,
                          slowCb |-> r.scenario.slowCb, partial |-> r.scenario.partial, cause2 |-> r.scenario.cause2, leaked |-> r.leaked]>>)) /\ FALSE
 
 \* causes initiated by the remote side or the transport: the local application must be told
-RemoteCauses == {"peer_close", "peer_reset", "write_error", "peer_stops_reading", "timer_disconnect"}
+RemoteCauses == {"peer_close", "peer_reset", "read_timeout", "write_error", "peer_stops_reading", "timer_disconnect"}
 
 Check(r) ==
   /\ (r.reachedPhase \/ PrintT("SPECERR " \o ToJson(<<r.id, "scenario did not reach its phase">>)))
